@@ -140,6 +140,17 @@ class LabDownstream(Downstream):
         super(LabDownstream, self).__init__(script=lab.script, idle_stage=True, **kw)
         self.lab = lab
 
+    def _send(self, f, c, ctx, stage, ok):
+        # stamp every single-line reply with the stage it answers ('@data', '@rset', ...) and the
+        # connection/transaction tag, so the offline oracle can tell whether the k-th reply the client
+        # consumed is the k-th the server sent (reply-stream alignment)
+        if ok.count(b'\n') == 1:
+            body = ok.rstrip(b'\r\n')
+            if b'[c' not in body:
+                body += b' [' + self._tag(ctx).encode() + b']'
+            ok = body + b' @' + stage.encode() + b'\r\n'
+        return super(LabDownstream, self)._send(f, c, ctx, stage, ok)
+
     def serve(self, sock, c):
         try:
             return super(LabDownstream, self).serve(sock, c)
@@ -313,6 +324,7 @@ class PoolLab(object):
         self.idle = case['idle']
         self.ncallers = case['ncallers']
         self.mix = set(case['mix'])
+        self.cmd_timeout = case.get('cmd_timeout') or CMD_TIMEOUT
         self.rnd = random.Random('lab-%r' % (self.seed,))
         self.events = []
         self.held = []                 # [(label, Event)] gates currently holding something
@@ -330,6 +342,7 @@ class PoolLab(object):
         self.callers = []
         self.by_env = {}
         self.last_poll = None
+        self.late_keys = set()         # (conn, txn) with a reply scripted later than command_timeout
         self.crashes = []              # exceptions that killed greenlets (hub.print_exception)
         self.invariant_breaks = []
         self.http = None
@@ -344,7 +357,7 @@ class PoolLab(object):
             cls = ObsLmtp if self.mode == 'lmtp' else ObsSmtp
             self.relay = cls('downstream.test', 25, pool_size=self.pool_size, context=_CTX,
                              socket_creator=self.creator, ehlo_as='poollab', idle_timeout=self.idle,
-                             connect_timeout=CMD_TIMEOUT, command_timeout=CMD_TIMEOUT)
+                             connect_timeout=CMD_TIMEOUT, command_timeout=self.cmd_timeout)
         self.relay._lab = self
         assert len(self.relay.queue) == 0 and not self.relay.pool
         self.relay.queue = CountingDeque(self)
@@ -484,9 +497,24 @@ class PoolLab(object):
                 act = ('close',)
             elif 'txn' in mix and stage == 'banner' and u < 0.06:
                 act = ('reply', '554' if u < 0.03 else '421')
+        if act[0] == 'reply' and self.mode != 'http' and stage != 'idle':
+            act = (act[0], act[1], 'scripted @%s' % stage)
         if act[0] != 'ok':
             self.fault(key, act[0] if act[0] != 'reply' else 'reply@' + re.sub(r'\d+', '', stage))
             self.ev('fault', conn, stage, act[0])
+        if 'late' in mix and self.mode != 'http' and stage not in ('connect', 'idle', 'noop', 'other'):
+            # a reply later than the relay's command_timeout: after a failed transaction's RSET (the
+            # followers are already queued), and now and then at any other stage
+            p = 0.6 if stage == 'rset' else 0.05
+            if U(s, 'l', key) < p and act[0] in ('ok', 'reply'):
+                st = re.sub(r'\d+', '', stage)
+                if ('late', key) not in self.faulted:
+                    self.late_keys.add((conn, txn))
+                    if len(self.relay.queue):
+                        self.cnt['late-%s-with-followers-queued' % st] += 1
+                self.fault(('late', key), 'late@' + st)
+                self.ev('fault', conn, stage, 'late')
+                return ('delay', self.cmd_timeout * 2.5, act)
         if 'slow' in mix and act[0] not in ('refuse',) and U(s, 's', key) < 0.3:
             self.fault(('slow', key), 'slow')
             act = ('delay', [0.002, 0.006, 0.013][int(U(s, 'd', key) * 3)], act)
